@@ -93,6 +93,14 @@ static CO_ERR COTNmtHbProdWrite(struct CO_OBJ_T *obj, struct CO_NODE_T *node, vo
     if (CO_GET_IDX(obj->Key) == COT_OBJECT) {
         /* get new cycle time */
         cycTime = *((uint16_t *)buffer);
+        ticks   = 0;
+        if (cycTime > 0) {
+            ticks = COTmrGetTicks(&node->Tmr, cycTime, CO_TMR_UNIT_1MS);
+            if (ticks == 0) {
+                /* time is below the timer resolution: nothing is changed */
+                return (CO_ERR_OBJ_RANGE);
+            }
+        }
 
         /* get active heartbeat producer timer */
         nmt = &node->Nmt;
@@ -108,7 +116,6 @@ static CO_ERR COTNmtHbProdWrite(struct CO_OBJ_T *obj, struct CO_NODE_T *node, vo
 
         /* start time for given cycletime */
         if (cycTime > 0) {
-            ticks = COTmrGetTicks(tmr, cycTime, CO_TMR_UNIT_1MS);
             nmt->Tmr = COTmrCreate(tmr, ticks, ticks, CONmtHbProdSend, nmt);
             if (nmt->Tmr < 0) {
                 return (CO_ERR_TMR_CREATE);
